@@ -476,24 +476,29 @@ def oracle_body_empty(s):
     return False
 
 
-def check_txt_oracle(res, items, obs):
-    """stage O for one dictionary; returns nothing, records violations"""
+def txt_violations(items, obs):
+    """stage O for one dictionary: list of (sig, what, case)"""
     exp = expected_props(items)
     case = {"stream": "txt", "items": items_json(items)}
+    out = []
     if not wf_props(exp):
-        return
+        return out
     if obs[0] == "err":
-        res.violate("C19:txt-encode-raises:%s" % obs[1], "a well-formed properties dictionary raised %s" % obs[1], case)
-        return
+        return [("C19:txt-encode-raises:%s" % obs[1], "a well-formed properties dictionary raised %s" % obs[1], case)]
     _, text, props, fresh = obs
     if norm(props) != norm(exp):
-        res.violate("C19:txt-properties-differ", ".properties does not give back the dictionary (empty value = no value)", dict(case, got=props_str(props, False)))
+        out.append(("C19:txt-properties-differ", ".properties does not give back the dictionary (empty value = no value)", dict(case, got=props_str(props, False))))
     if norm(fresh) != norm(exp):
-        res.violate("C19:txt-library-decode-differs", "decoding .text in the library does not give back the dictionary", dict(case, text=text.hex(), got=props_str(fresh, False)))
+        out.append(("C19:txt-library-decode-differs", "decoding .text in the library does not give back the dictionary", dict(case, text=text.hex(), got=props_str(fresh, False))))
     if wf_props(exp, rfc=True):
         got = rfc_parse(text)
         if got is None or sorted(got, key=lambda e: e[0]) != sorted(exp, key=lambda e: e[0]):
-            res.violate("C19:txt-rfc6763-decode-differs", "an RFC 6763 section 6 reader does not recover the dictionary from .text", dict(case, text=text.hex()))
+            out.append(("C19:txt-rfc6763-decode-differs", "an RFC 6763 section 6 reader does not recover the dictionary from .text", dict(case, text=text.hex())))
+    return out
+
+
+def case_size(case):
+    return len(json.dumps(case))
 
 
 # ------------------------------------------------------------------------------------------
@@ -517,28 +522,31 @@ def run(ctx):
     for s in fixed:
         names.append((s, True, "fixed"))
         names.append((s, False, "fixed"))
-    ex_len = 3 if tier == "thorough" or ctx["widened"] else 3
+    ex_len = 4 if tier == "thorough" else 3
     ex = list(exhaustive_names(ex_len))
     for s in ex:
         names.append((s, True, "exhaustive"))
         names.append((s, False, "exhaustive"))
+    for s in ["\ud800._http._tcp.local.", "a\udfffb._sub._x._udp.local.", "_\ud800._tcp.local.", "\udc00.local.", "\ud83d", "x._a\ud800._tcp.local."]:
+        names.append((s, True, "surrogate"))
+        names.append((s, False, "surrogate"))
     rng = C.rng_for(seed, "c19", "grammar")
-    for _ in range(B(24000, 1200000)):
+    for _ in range(B(150000, 2400000)):
         s, tag = gen_grammar(rng)
         names.append((s, rng.random() < 0.5, "g:" + tag))
     rng = C.rng_for(seed, "c19", "len")
-    for _ in range(B(600, 20000)):
+    for _ in range(B(3000, 40000)):
         s, tag = gen_length_boundary(rng)
         names.append((s, rng.random() < 0.35, "len"))
     rng = C.rng_for(seed, "c19", "random")
-    for _ in range(B(4000, 200000)):
+    for _ in range(B(20000, 400000)):
         s, tag = gen_random(rng)
         names.append((s, rng.random() < 0.5, "random"))
 
     # ---------------- ctor stream
     ctors = []
     rng = C.rng_for(seed, "c19", "ctor")
-    for _ in range(B(2500, 60000)):
+    for _ in range(B(15000, 200000)):
         s, tag = gen_grammar(rng) if rng.random() < 0.8 else gen_random(rng)
         want = oracle_type(s, False)
         base = want if want is not None and rng.random() < 0.9 else rng.choice(["_http._tcp.local.", "local.", "_x._udp.local.", ""])
@@ -569,13 +577,13 @@ def run(ctx):
     dicts += [[], [("a", None)], [("a", "")], [(b"a", b"")], [("a", "1"), (b"a", b"2")], [("a", "1"), ("A", "2")], [("", "x")], [("a=b", "c")],
               [("k" * 255, None)], [("k" * 256, None)], [("k" * 253, "")], [("k" * 253, "v")], [("k" * 254, "")], [(b"k" * 254, b"")], [(b"k", b"v" * 253)], [(b"k", b"v" * 254)]]
     rng = C.rng_for(seed, "c19", "txt")
-    for _ in range(B(6000, 200000)):
+    for _ in range(B(30000, 500000)):
         dicts.append(gen_dict(rng))
 
     # ---------------- dec stream
     texts = [b"", b"\x00", b"\x01", b"\x03a=1\x03a=2", b"\x01a\x03a=2", b"\x02a=\x03a=2", b"\xffab", b"\x03=ab"]
     rng = C.rng_for(seed, "c19", "dec")
-    for _ in range(B(3000, 100000)):
+    for _ in range(B(20000, 300000)):
         texts.append(gen_text(rng))
 
     # ---------------- model
@@ -658,6 +666,7 @@ def run(ctx):
         res.violate(*best_c[sig])
 
     # ---------------- evaluate txt
+    best_t = {}
     for idx, items in enumerate(dicts):
         res.evaluations += 1
         obs = impl_txt(items)
@@ -667,7 +676,10 @@ def run(ctx):
         res.nontriv("t/%d/%s/%s/%s/%s" % (min(len(items), 3), wf_props(exp), wf_props(exp, True), obs[0] if obs[0] == "ok" else obs[1],
                                           "lim" if maxitem >= 254 else ""))
         res.count("txt-wf" if wf_props(exp, True) else "txt-not-wf")
-        check_txt_oracle(res, items, obs)
+        for v in txt_violations(items, obs):
+            res.count("txt-violations")
+            if v[0] not in best_t or case_size(v[2]) < case_size(best_t[v[0]][2]):
+                best_t[v[0]] = v
         if model is not None:
             m = model[n_name + n_ctor + idx]
             if obs[0] == "err":
@@ -680,6 +692,9 @@ def run(ctx):
                 res.disagree("txt", case, mine, m)
         if idx == 20:
             res.sample({"properties": items_json(items), "text": obs[1].hex() if obs[0] == "ok" else obs[1]})
+
+    for sig in sorted(best_t):
+        res.violate(*best_t[sig])
 
     # ---------------- evaluate dec
     for idx, text in enumerate(texts):
@@ -722,9 +737,8 @@ def replay(body):
         return {"implementation": list(obs), "expected_ok": ok_want, "violates": bad}
     if st == "txt":
         items = items_unjson(case["items"])
-        r = C.Result("C19")
         obs = impl_txt(items)
-        check_txt_oracle(r, items, obs)
-        return {"implementation": [o.hex() if isinstance(o, bytes) else str(o) for o in obs], "violates": bool(r.violations),
-                "what": [v["what"] for v in r.violations]}
+        vs = txt_violations(items, obs)
+        return {"implementation": [o.hex() if isinstance(o, bytes) else str(o) for o in obs], "violates": bool(vs),
+                "what": [v[1] for v in vs]}
     return {"violates": None, "note": "correspondence-only case; re-run ./check C19 quick"}
